@@ -302,6 +302,21 @@ def call_builtin(ev, name, args, kwargs, node):
         return App("sum", (as_v(ev, args[0]),))
     if name == "range":
         return App("range", [as_v(ev, a) for a in args])
+    if name == "map" and len(args) == 2:
+        # map(f, seq) is the generator (f(x) for x in seq)
+        f, seq = args
+        items = ev.concrete_items(seq)
+        if items is not None:
+            return Lst([ev.call(f, [x], {}, node) for x in items])
+        loopid = next(ev.sym_counter)
+        it = as_v(ev, seq) if not isinstance(seq, V) else seq
+        elem = ev.loop_element(seq if isinstance(seq, (V, Lst)) else it, loopid)
+        val = ev.call(f, [elem], {}, node)
+        from .evalr import key_of
+        l = Lst()
+        l.pappends.append((Tup([elem if isinstance(elem, V) else Sym(key_of(elem))]), val))
+        l.comp = ([(loopid, elem, it)], [], val)
+        return l
     if name in ("zip", "enumerate"):
         return App(name, [as_v(ev, a) if not isinstance(a, (Lst, Tup)) or ev.concrete_items(a) is None else Tup(ev.concrete_items(a)) for a in args])
     if name in ("list", "tuple"):
@@ -657,6 +672,11 @@ def np_call(ev, name, args, kwargs, node):
         if is_const(nd):
             return xv if const_of(nd) >= 1 else mk_app("expand_dims", [xv], [("axis", Const(0))])
         return ite(compare("==", nd, Const(0)), App("expand_dims", (xv,), [("axis", Const(0))]), xv)
+    if name == "ravel" and len(A) == 1 and (kwargs.get("order") in (None, Const("C"))):
+        return np_call(ev, "reshape", [A[0], Const(-1)], {}, node)  # C-order ravel is reshape(-1)
+    if name in ("ravel", "flatten", "reshape") and kwargs.get("order") not in (None, Const("C")):
+        # memory-order dependent flattening ("K"/"A"/"F") is not the logical (row-major) order of the elements
+        return App("reorder:" + name, [as_v(ev, a) for a in A], _kw(ev, kwargs))
     if name in PURE_UNINTERPRETED:
         return App(name, [as_v(ev, a) for a in A], _kw(ev, kwargs))
     ev.note_unmodelled("numpy." + name, node)
@@ -910,6 +930,9 @@ NP_METHOD_FORMS = {"sum", "mean", "min", "max", "any", "all", "prod", "argmin", 
 
 def call_method(ev, recv, name, args, kwargs, node):
     from .evalr import Lst, Dct, Obj, storage_root, RaiseSignal
+
+    if name == "__getitem__" and len(args) == 1 and not kwargs:
+        return getitem(ev, recv, args[0], node)
 
     if isinstance(recv, ListElem):
         if name == "append":
